@@ -216,7 +216,7 @@ def main(argv=None):
         return 1
     # ---- inconclusive?
     reasons = []
-    if results and len(lost) > 0.2 * len(results):
+    if results and len(lost) > 0.05 * len(results):
         reasons.append(f"lost_cases={len(lost)}/{len(results)}:{(lost[0].get('error') or lost[0].get('lost') or '')[-300:]!r}")
     if not a.replay:
         for key in getattr(mod, "REQUIRED_OBS", []):
